@@ -1097,6 +1097,10 @@ func run(c *mc.Ctx) {
 func replay(c *mc.Ctx, raw json.RawMessage) {
 	var rc RawCase
 	if json.Unmarshal(raw, &rc) == nil && rc.Target != "" && len(rc.Set) > 0 {
+		if strings.Contains(rc.Target, "://") {
+			rawAbsolute(c) // the fixed table of absolute-form targets
+			return
+		}
 		rawOne(c, rc.Set, rc.Target, true)
 		return
 	}
